@@ -119,7 +119,7 @@ def build_reader(kind, data, sw, ch, files, block_dur, hop_dur, max_read, record
         sys.stdin = old
 
 
-def c10_case(kind, n, sw, ch, files, B, block_dur, H, hop_dur, max_read, extra_reads=3):
+def c10_case(kind, n, sw, ch, files, B, block_dur, H, hop_dur, max_read, extra_reads=3, premature=False):
     """Returns complaint or None."""
     # R2: durations whose exact product with the rate is within 1e-9 of an integer without being one are ambiguous
     for dur in (block_dur, hop_dur):
@@ -141,6 +141,13 @@ def c10_case(kind, n, sw, ch, files, B, block_dur, H, hop_dur, max_read, extra_r
     try:
         if r.block_size != B:
             return "block_size is %r, floor(block_dur*rate) is %d" % (r.block_size, B)
+        if premature and not kind.startswith("stdin") and kind != "buffer_pos2":
+            # reading a reader that is not open is an error - and must leave it usable once opened
+            try:
+                if r.read() is not None:
+                    return None  # statement silent on a reader that hands out data before open(): not judged
+            except Exception:
+                pass
         r.open()
         got = []
         for _ in range(len(exp) + extra_reads):
@@ -192,7 +199,8 @@ def work_c10(task):
             HH = B if H is None else H
             for mr in max_reads(n):
                 for kind in kinds:
-                    msg = c10_case(kind, n, sw, ch, files, B, bd, HH, hop_dur, mr)
+                    prem = (n + B + len(kind)) % 3 == 0
+                    msg = c10_case(kind, n, sw, ch, files, B, bd, HH, hop_dur, mr, premature=prem)
                     cov["evaluations"] += 1
                     cov["traces_validated_against_impl"] += 1
                     nb = len(blocks_of([b"."] * visible_count(n, mr), B, HH))
@@ -204,7 +212,7 @@ def work_c10(task):
                             SR, kind, n, sw, ch, bd, hop_dur, mr)
                         if len(viol) < 20:
                             viol.append((key, msg, {"kind": "c10", "source": kind, "n": n, "sw": sw, "ch": ch, "B": B,
-                                                    "block_dur": bd, "H": HH, "hop_dur": hop_dur, "max_read": mr, "rate": SR}))
+                                                    "block_dur": bd, "H": HH, "hop_dur": hop_dur, "max_read": mr, "rate": SR, "premature": prem}))
         for f in files.values():
             os.unlink(f)
     cov["states"] = cov["evaluations"]
@@ -389,7 +397,9 @@ def work_c19(task):
            "merges_validated": res.merges_validated,
            "samples": [{"cfg(n,sw,ch,block,hop,max_read,how,source)": list(cfg), "states": res.states,
                         "deepest_new_state_history": res.sample}]}
-    if not res.closed:
+    if many:
+        cov["large_rows_not_exhaustive"] = res.histories  # directed rows: depth-bounded on purpose
+    elif not res.closed:
         cov["exhaustive"] = False
         cov["caps_hit"] = ["closure not reached for %r" % (cfg,)]
     return {"cov": cov, "viol": viol}
@@ -453,7 +463,7 @@ def run(prop, tier):
     for n in (range(0, 6) if quick else range(0, 8)):
         for B in (1, 2, 3):
             for H in range(1, B + 1):
-                for mr in [None, 0, 1 / SR, 2.5 / SR, (n + 3) / SR, max(n - 1, 1) / SR]:
+                for mr in [None, 0, 1 / SR, 2.5 / SR, 3.5 / SR, 1.75 / SR, (n + 3) / SR, max(n - 1, 1) / SR]:
                     for how, kind, fmt in (("record", "bytes", (2, 1)), ("Recorder", "buffer", (1, 2))):
                         if quick and (n + B + H) % 2 and how == "Recorder":
                             continue
@@ -488,7 +498,7 @@ def replay(case):
         data = content(case["n"], case["sw"], case["ch"])
         files = write_files(data, case["sw"], case["ch"], "replay")
         return c10_case(case["source"], case["n"], case["sw"], case["ch"], files, case["B"], case["block_dur"],
-                        case["H"], case["hop_dur"], case["max_read"])
+                        case["H"], case["hop_dur"], case["max_read"], premature=case.get("premature", False))
     if k == "c10rej":
         try:
             lib()["util"].AudioReader(content(4, 2, 1), block_dur=case["block_dur"], hop_dur=case["hop_dur"], sr=SR, sw=2, ch=1)
